@@ -655,7 +655,7 @@ def run_paths(ctx, out):
         paths.append("".join(rng.choice(PATH_TOKENS) for _ in range(rng.randrange(4, 8))))
     paths = sorted(set(paths))
     res = pool.pmap("impl.lint", "impl_getparser", [[p] for p in paths], timeout=3.0, batch=400)
-    model = C.run_driver_parallel(["getparser %s" % C.enc(p) for p in paths]) if ctx.model_ok else [None] * len(paths)
+    model = C.run_driver_parallel(["c19.getparser %s" % C.enc(p) for p in paths]) if ctx.model_ok else [None] * len(paths)
     for p, r, mo in zip(paths, res, model):
         out.evaluations += 1
         got = r.get("r") if "exc" not in r else "exc:" + r["exc"]
@@ -683,7 +683,7 @@ def run_linecol(ctx, out):
         t = "".join(rng.choice(alpha) for _ in range(rng.randrange(0, 12)))
         cases.append((t, rng.randrange(-2, len(t) + 3)))
     res = pool.pmap("impl.lint", "impl_linecol", [[t, p] for t, p in cases], timeout=3.0, batch=400)
-    model = C.run_driver_parallel(["linecol %s %d" % (C.enc(t), p) for t, p in cases]) if ctx.model_ok else [None] * len(cases)
+    model = C.run_driver_parallel(["c19.linecol %s %d" % (C.enc(t), p) for t, p in cases]) if ctx.model_ok else [None] * len(cases)
     for (t, p), r, mo in zip(cases, res, model):
         out.evaluations += 1
         if "exc" in r:
